@@ -34,7 +34,7 @@ TRUSTED = [
 ]
 RULE = ("enc: values from the structured generator restricted to json_safe (plus 10% unrestricted), the float text cut-off pool, "
         "control / non-BMP / U+2028 strings and keys, every single byte value, the neighbourhood of the reserved shapes; each in 3 "
-        "insertion orders and basicnode/bindnode holders, bytes values also in streaming LargeBytesNode holders with short reads (NewBytesFromReader over 5 reader kinds, MultiByteNode) and bindnode []byte, plus other sort modes and the plain json codec. dec: hand-made inputs "
+        "insertion orders and basicnode/bindnode holders, bytes values also in streaming LargeBytesNode holders with short reads (NewBytesFromReader over 5 reader kinds, MultiByteNode) and bindnode []byte, plus other sort modes, the plain json codec and EncodeOptions with EncodeLinks x EncodeBytes x MapSortMode varied independently. dec: hand-made inputs "
         "under 7 option sets, mutations of valid encodings and a token soup dense in reserved forms. distinct = distinct input "
         "fields; non-trivial = input longer than 8 characters")
 SEARCH_SEEDS = [1000004, 2000005]
